@@ -45,6 +45,7 @@ use std::{
 pub const ALLOC_FACTOR: u64 = 96;
 pub const ALLOC_CONST: u64 = 16384;
 pub const KAD_PEER_COST: u64 = 6144;
+pub const EMBED_BOUND: u64 = 1 << 28;
 fn alloc_bound_kad(k: u64, len: usize) -> u64 {
     alloc_bound(len) + KAD_PEER_COST * (2 * k + 1)
 }
@@ -213,9 +214,9 @@ pub fn case_as_proto(c: &[u64]) -> Vec<u64> {
 // ---------------------------------------------------------------- in-memory carrier
 
 #[derive(Clone, Default)]
-struct Carrier {
-    input: Arc<Mutex<(Vec<u8>, usize)>>,
-    written: Arc<Mutex<Vec<u8>>>,
+pub struct Carrier {
+    pub input: Arc<Mutex<(Vec<u8>, usize)>>,
+    pub written: Arc<Mutex<Vec<u8>>>,
 }
 impl tokio::io::AsyncRead for Carrier {
     fn poll_read(self: Pin<&mut Self>, _cx: &mut Context<'_>, buf: &mut tokio::io::ReadBuf<'_>) -> Poll<std::io::Result<()>> {
@@ -692,15 +693,13 @@ fn run_inner(p: &[u64]) -> Option<(Vec<u64>, Vec<u64>)> {
                 }
             }
             orc.push(&mut case);
-            // decode as the protocol does (payload.to_vec().as_slice()) plus the address rule
-            let (r, peak) = measure(|| {
-                SchemaIdentify::decode(b.to_vec().as_slice()).ok().map(|info| {
-                    let listen: Vec<Vec<u8>> = info.listen_addrs.iter().filter_map(|a| addr_kept(a, &peer)).collect();
-                    let observed = info.observed_addr.as_ref().and_then(|a| addr_kept(a, &local));
-                    let protocols: std::collections::HashSet<String> = std::collections::HashSet::from_iter(info.protocols.clone());
-                    (info, listen, observed, protocols)
-                })
-            });
+            // the REAL identify event loop: connection announced, the substream it opens carries
+            // one varint frame with the payload, the public event (if any) is observed
+            if local != super::tasks::local_peer() {
+                return None;
+            }
+            let wire = super::tasks::identify_frame(&b);
+            let (r, peak) = super::tasks::identify(peer, &wire)?;
             let mut body = Vec::new();
             match &raw {
                 Some(m) => {
@@ -710,15 +709,13 @@ fn run_inner(p: &[u64]) -> Option<(Vec<u64>, Vec<u64>)> {
                 None => body.push(0),
             }
             match r {
-                Some((info, listen, observed, protocols)) => {
+                Some(info) => {
                     body.push(1);
                     eo(&mut body, info.protocol_version.as_ref().map(|s| s.as_bytes()));
-                    eo(&mut body, info.agent_version.as_ref().map(|s| s.as_bytes()));
-                    let mut ps: Vec<Vec<u8>> = protocols.into_iter().map(|s| s.into_bytes()).collect();
-                    ps.sort();
-                    ell(&mut body, &ps);
-                    eo(&mut body, observed.as_deref());
-                    ell(&mut body, &listen);
+                    eo(&mut body, info.user_agent.as_ref().map(|s| s.as_bytes()));
+                    ell(&mut body, &info.protocols);
+                    eo(&mut body, info.observed.as_deref());
+                    ell(&mut body, &info.listen);
                 }
                 None => body.push(0),
             }
@@ -765,37 +762,11 @@ fn run_inner(p: &[u64]) -> Option<(Vec<u64>, Vec<u64>)> {
                 }
             }
             orc.push(&mut case);
+            // the REAL bitswap event loop: the remote's inbound substream carries one varint frame
             let peer = some_peer();
-            let (r, peak) = measure(|| {
-                bsv::SchemaMessage::decode(BytesMut::from(&b[..])).ok().map(|m| {
-                    // on_message_received, transcribed around the real helpers
-                    let mut req = Vec::new();
-                    if let Some(w) = &m.wantlist {
-                        for e in &w.entries {
-                            if let Ok(cid) = Cid::read_bytes(e.block.as_slice()) {
-                                if e.want_type == 0 || e.want_type == 1 {
-                                    req.push((cid.to_bytes(), e.want_type as u64));
-                                }
-                            }
-                        }
-                    }
-                    let mut blocks = Vec::new();
-                    for blk in m.payload.iter() {
-                        if let Some(c) = bsv::verif_block_to_response(&peer, blk.prefix.clone(), blk.data.clone()) {
-                            blocks.push(c);
-                        }
-                    }
-                    let mut pres = Vec::new();
-                    for p in &m.block_presences {
-                        if let Ok(cid) = Cid::read_bytes(&p.cid[..]) {
-                            if p.r#type == 0 || p.r#type == 1 {
-                                pres.push((cid.to_bytes(), p.r#type as u64));
-                            }
-                        }
-                    }
-                    (req, blocks, pres)
-                })
-            });
+            let wire = super::tasks::bitswap_frame(&b);
+            let (seen, peak) = super::tasks::bitswap(peer, &wire)?;
+            let r = raw.as_ref().map(|_| (seen.requests, seen.blocks, seen.presences));
             let mut body = Vec::new();
             match (&raw, r) {
                 (Some(m), Some((req, blocks, pres))) => {
@@ -859,7 +830,23 @@ fn run_inner(p: &[u64]) -> Option<(Vec<u64>, Vec<u64>)> {
             let mut orc = Orc::default();
             orc.add(1, &b, || r.clone());
             orc.push(&mut case);
-            Some((case, hdr(peak, alloc_bound(b.len()), 0, vec![r[0]])))
+            Some((case, hdr(peak, alloc_bound(b.len()), 0, r)))
+        }
+        17 => {
+            let b = cur.bytes()?;
+            if !cur.done() {
+                return None;
+            }
+            let (r, peak) = measure(|| Cid::read_bytes(&b[..]).ok().map(|c| c.to_bytes()));
+            let body = match r {
+                Some(c) => {
+                    let mut o = vec![1];
+                    el(&mut o, &c);
+                    o
+                }
+                None => vec![0],
+            };
+            Some((case, hdr(peak, alloc_bound(b.len()), 0, body)))
         }
         12 => {
             let h = cur.n()? != 0;
@@ -927,6 +914,18 @@ fn run_inner(p: &[u64]) -> Option<(Vec<u64>, Vec<u64>)> {
                 codes
             });
             Some((case, hdr(peak, alloc_bound(total), 0, codes)))
+        }
+        14 | 15 | 16 => {
+            // another property's whole scenario (its own per-call catch_unwind and trace format)
+            let raw = &p[1..];
+            let (t, peak) = measure(|| match kind {
+                14 => super::ext::x02::run(raw),
+                15 => super::ext::x04::run(raw),
+                _ => super::ext::x03::run(raw),
+            });
+            let mut out = vec![1, if peak <= EMBED_BOUND { EMBED_BOUND } else { peak }, 0];
+            out.extend(t);
+            Some((case, out))
         }
         20 => run_rt(&mut cur).map(|t| (case, t)),
         _ => None,
